@@ -164,6 +164,11 @@ class C09(Prop):
                 z = be.plist(lst)
                 b.forward(z)
                 rec["other"] = {"h": h, "ins": lst, "fwd": be.p_list(z)}
+                b.backward(z)
+                rec["other"]["back"] = be.p_list(z)
+                y2 = be.plist(lst)
+                b.backward(y2)
+                rec["other"]["bwd"] = be.p_list(y2)
         except Exception as e:
             rec["exc"] = _exc(e)
             import traceback
